@@ -475,8 +475,19 @@ func (c02) Run(plan interface{}, schedSeed uint64, replay []simrt.Choice, lenien
 		return v, out
 	}
 	if len(errsOnly(base.Recs)) > 0 {
-		// the library itself rejects this response even unfragmented: not a valid response, nothing to compare
+		// the library itself rejects this response even unfragmented: not a valid response, nothing to compare -
+		// unless every package of it is a validated encoding: such a response in one packet and one read is the
+		// statement's own reference delivery and may not be rejected
 		v.Probe("baseline-rejected-response")
+		validated := true
+		for _, n := range p.Entries {
+			if isDisputed[n] {
+				validated = false
+			}
+		}
+		if validated {
+			v.Violate("baseline-error", "the response in a single packet and a single read is rejected", "the response %v (%d bytes, validated encodings only) delivered in one packet and one read produced an error: %s", p.Entries, len(body), short(errsOnly(base.Recs)[0], 160))
+		}
 		return v, out
 	}
 	if out.Budget {
